@@ -77,6 +77,46 @@ def h_root_base(eng, units, system):
         _same_q(eng, rr, r, f"{name}-idempotent")
 
 
+def h_inplace_other_types(eng, units, system):
+    """float registry, int and float magnitudes (scalars and arrays): every in-place form gives
+    what its returning twin gives -- also for offset and logarithmic units -- and the returning
+    form leaves its operand alone"""
+    import numpy as np
+
+    ureg = regs.float_default()
+    if system != "default":
+        ureg.default_system = system
+    for u in units:
+        # (integer arrays are left out: numpy itself refuses to write floats into them in place)
+        for mag in (25, 25.0, -3.5, 0, np.array([25.0, 1.5])):
+            for name in ("root_units", "base_units", "reduced_units", "compact"):
+                if name == "compact" and hasattr(mag, "copy"):
+                    continue
+                def mk():
+                    return ureg.Quantity(mag.copy() if hasattr(mag, "copy") else mag, u)
+
+                q = mk()
+                try:
+                    r = getattr(q, "to_" + name)()
+                except Exception as ex:  # noqa: BLE001
+                    r = type(ex).__name__
+                q2 = mk()
+                same_operand = np.all(q.magnitude == mk().magnitude) and q.units == mk().units
+                eng.prove(bool(same_operand), f"to_{name}:operand-untouched:{u}:{type(mag).__name__}")
+                if not hasattr(q2, "ito_" + name):
+                    continue
+                try:
+                    getattr(q2, "ito_" + name)()
+                    r2 = q2
+                except Exception as ex:  # noqa: BLE001
+                    r2 = type(ex).__name__
+                if isinstance(r, str) or isinstance(r2, str):
+                    eng.prove(isinstance(r, str) and isinstance(r2, str) and r == r2, f"ito_{name}:same-kind-of-outcome:{u}:{repr(mag)[:14]}:{str(r)[:30]}/{str(r2)[:30]}")
+                    continue
+                ok = r.units == r2.units and np.allclose(np.asarray(r.magnitude, dtype=float), np.asarray(r2.magnitude, dtype=float), rtol=1e-12, atol=0)
+                eng.prove(bool(ok), f"ito_{name}:same-as-to_{name}:{u}:{repr(mag)[:14]}")
+
+
 def h_reduced(eng, units):
     ureg = regs.default(eng)
     inf = covers.infos()
@@ -321,6 +361,10 @@ def cases(tier, seed):
         out.append(Case("H15.c", f"compact-given-unit:{unit}->{base}", M, "h_compact_given_unit", {"unit": unit, "base": base}, opts={"max_paths": 3000, "query_timeout_ms": 30000}, weight=20.0, validate=0))
     for u in ("kilometer", "millisecond", "meter", "megabyte") + (("microgram", "gigahertz", "newton") if big else ()):
         out.append(Case("H15.c", f"compact-uncertain:{u}", M, "h_compact_uncertain", {"unit": u}, opts={"max_paths": 3000, "query_timeout_ms": 30000}, weight=20.0, validate=0))
+    other = ["degC", "degF", "degree_Reaumur", "kelvin", "dBm", "decibel", "neper", "octave", "inch", "mile/hour", "psi", "degC/meter", "kilowatt_hour", "percent", "delta_degF"] + [_canon(n) for n in rnd.sample(cov, 30 if big else 6)]
+    for s_ in ("default", "cgs", "imperial"):
+        for i in range(0, len(other), 7):
+            out.append(Case("H15.a", f"inplace-float:{s_}:{i:02d}", M, "h_inplace_other_types", {"units": other[i : i + 7], "system": s_}, kind="conc"))
     prefs = [([["acre", 1]], ["meter"]), ([["force_pound", 1], ["meter", 1]], ["watt", "second"]), ([["mile", 1], ["hour", -1]], ["meter", "second"]), ([["gram", 1], ["inch", 2], ["minute", -2]], ["joule"]), ([["psi", 1]], ["newton", "meter"])]
     for ul, pref in prefs:
         ul = [[_canon(n), e] for n, e in ul]
